@@ -407,27 +407,34 @@ impl KeyValueStore {
                 seq_no,
             )
         };
-        let mut log_batch = sst::log::WriteBatch::default();
-        for entry in batch.entries.iter() {
-            log_batch.insert(KeyValueRef::from(entry))?;
-        }
-        self.poison(log.append(log_batch))?;
-        #[cfg(rescrv_blue_verif)]
-        crate::verif::yield_point(2);
-        self.poison(memtable.write(&mut batch))?;
-        #[cfg(rescrv_blue_verif)]
-        crate::verif::yield_point(3);
+        // A write that fails (a batch rejected for its size, an I/O error) must still leave the wait
+        // list the way a successful one does: in its turn, and waking the writer behind it.
+        let result = (|| {
+            let mut log_batch = sst::log::WriteBatch::default();
+            for entry in batch.entries.iter() {
+                log_batch.insert(KeyValueRef::from(entry))?;
+            }
+            self.poison(log.append(log_batch))?;
+            #[cfg(rescrv_blue_verif)]
+            crate::verif::yield_point(2);
+            self.poison(memtable.write(&mut batch))?;
+            #[cfg(rescrv_blue_verif)]
+            crate::verif::yield_point(3);
+            Ok(())
+        })();
         drop(memtable);
         drop(log);
         let mut state = self.state.lock().unwrap();
         while !wait_guard.is_head() {
             state = wait_guard.naked_wait(state);
         }
-        // Every write with a lower sequence number has completed, so ours becomes visible now.
-        state.completed_seq_no = std::cmp::max(state.completed_seq_no, seq_no);
+        if result.is_ok() {
+            // Every write with a lower sequence number has completed, so ours becomes visible now.
+            state.completed_seq_no = std::cmp::max(state.completed_seq_no, seq_no);
+        }
         drop(wait_guard);
         self.wait_list.notify_head();
-        Ok(())
+        result
     }
 
     pub fn load(&self, key: &[u8], is_tombstone: &mut bool) -> Result<Option<Vec<u8>>, SError> {
